@@ -81,6 +81,7 @@ GraphOp(m, a, s) ==
     [] m = "filter"      -> PR(s, RVal(SortInts(Filter(g, a[1]))))
     [] m = "clone"       -> PR([s EXCEPT !.gs = <<g, g>> \o Tail(@)], RUnit)
     [] m = "diff"        -> PR(s, IF a[1] < Len(s.gs) THEN RVal(Differ(s.gs[a[1] + 1], g)) ELSE RNone)
+    [] m = "diff_rev"    -> PR(s, IF a[1] < Len(s.gs) THEN RVal(Differ(g, s.gs[a[1] + 1])) ELSE RNone)
     [] m = "eq"          -> PR(s, IF a[1] < Len(s.gs) THEN RVal(GraphEqImpl(s.gs[a[1] + 1], g)) ELSE RNone)
     \* the texts are judged by JudgeGraph (TextOK / DiffTextOK): only the shape of the answer is fixed here
     [] m = "to_string"   -> PR(s, RVal(""))
@@ -167,6 +168,11 @@ TrueCountOK(v, n, sp) ==
       t   == FloorScaled(sp, 16)
       slack == 65536 + 330 * n
   IN cnt * 65536 >= t * n - slack /\ cnt * 65536 <= (t + 1) * n + slack
+\* sparsities 1/4, 1/2, 3/4 survive the rounding to whole percent unchanged and their products with the length are exact:
+\* the README's "(sparsity * n) true values", up to the rounding of a fractional product
+QuarterCountOK(cnt, n, sp) ==
+  LET q == CASE sp = 1048576000 -> 1 [] sp = 1056964608 -> 2 [] sp = 1061158912 -> 3 [] OTHER -> 0      \* bits of 0.25, 0.5, 0.75
+  IN q > 0 /\ 4 * cnt - n * q > -4 /\ 4 * cnt - n * q < 4
 JudgeGen(e) ==
   LET m == e.act.m
       a == e.act.args
@@ -184,6 +190,10 @@ JudgeGen(e) ==
          [] m = "random_bool_vector" ->
               IF a[1] < 0 \/ FIsNaN(a[2]) \/ FLt(a[2], FPosZero) \/ FGt(a[2], FOne) THEN RetEq(e.ret, RNone)
               ELSE e.ret.t = "some" /\ Len(e.ret.v) = a[1] /\ TrueCountOK(e.ret.v, a[1], a[2])
+         \* only the length and the number of TRUE bits are reported (vectors of millions of bits; sparsity a quarter multiple)
+         [] m = "random_bool_vector_count" ->
+              IF a[1] < 0 THEN RetEq(e.ret, RNone)
+              ELSE e.ret.t = "some" /\ e.ret.v.len = a[1] /\ QuarterCountOK(e.ret.v.trues, a[1], a[2])
          [] m = "random_int_vector" ->
               IF a[1] < 0 \/ a[3] <= a[2] THEN RetEq(e.ret, RNone)
               ELSE e.ret.t = "some" /\ Len(e.ret.v) = a[1] /\ \A i \in 1..Len(e.ret.v) : e.ret.v[i] >= a[2] /\ e.ret.v[i] < a[3]
